@@ -25,6 +25,9 @@ RULES = {
              'the order the listing function sorts in (newest first / oldest first), counting reversals',
     'C12.g': 'the catch-up hands the requester\'s timestamp to the query unchanged ("at or after"): the argument of the oplog query in '
              'every caller originates from the caller\'s own parameter without arithmetic',
+    'C12.h': 'an acknowledged record is in the file: the record writer flushes its buffered stream (flush, or a seek / stream_position on '
+             'the BufWriter, which flush first) after the last field was written; and the reader\'s insert of a record into the result is '
+             'unconditional (a later record of a (db,key) always replaces the earlier label, equal timestamps included)',
     'C12.e': 'the appender answers Ok only from a successful append: an Ok result is built only where the Ok edge of a call to the '
              'record writer dominates (after a rotation the record is appended again to the fresh file, so the live file is never '
              'left empty on a non-empty log and last_op_time stays the newest timestamp)',
@@ -60,6 +63,7 @@ def _run(ck, m):
     same = rw[:len(ww)] == ww
     ck.ob('C12.a', short(wb.id), 'widths', ok and same,
           'writer fields %s = reader fields %s' % (ww, rw[:len(ww)]) if ok and same else 'writer writes %s, reader reads %s' % (ww, rw), '%s:%s' % (wb.file, wb.line))
+    visible_rule(ck, m, wb, rb)
     total = sum(x for x in ww if isinstance(x, int))
     consts = codec.const_items(P, 'OP_RECORD_SIZE')
     bad = {k: v for k, v in consts.items() if v != {str(total)}}
@@ -396,6 +400,42 @@ def listing_newest_first(P):
                 calls, params = slice_calls(sb, t['args'][0])
                 newest_first = 3 in params and 2 not in params
     return newest_first
+
+
+def visible_rule(ck, m, wb, rb):
+    P = m.prog
+    writes = [bi for bi, t in wb.calls() if callee_decl(t) in ('std::io::Write::write', 'std::io::Write::write_all')]
+    flushes = [bi for bi, t in wb.calls() if callee_decl(t) == 'std::io::Write::flush' or
+               (callee_decl(t) in ('std::io::Seek::stream_position', 'std::io::Seek::seek', 'std::io::Seek::rewind')
+                and 'BufWriter' in t['f'].get('dargs', ''))]
+    ok = bool(writes) and any(all(wb.dominates(w, f) for w in writes) for f in flushes)
+    ck.ob('C12.h', short(wb.id), 'record-flushed-before-ack', ok,
+          'the record writer flushes its stream after the last field' if ok else
+          'the record writer returns with the newest record still in the BufWriter (writes %d, flushes after them: none): until the next append '
+          'last_op_time reports the previous record (0 for a one-record log) and the query misses the newest operation' % len(writes),
+          '%s:%s' % (wb.file, wb.line))
+    ctor = [b for b in P.user_bodies() if b.id.endswith('bo::OpLogRecord::new')]
+    news = [bi for bi, t in rb.calls() if ctor and callee(t) == ctor[0].id]
+    ins = [bi for bi, t in rb.calls() if callee_decl(t) == 'std::collections::HashMap::insert' and 'OpLogRecord' in t['f'].get('dargs', '')]
+    oki = bool(news) and bool(ins) and all(any(rb.postdominates(i, n_) or
+                                               (rb.dominates(n_, i) and not _conditional_between(rb, n_, i)) for i in ins) for n_ in news)
+    ck.ob('C12.h', short(rb.id), 'insert-unconditional', oki,
+          'every record read is inserted into the result (the later record of a (db,key) replaces the earlier one)' if oki else
+          'the insert of a record into the result is conditional: with a comparison against the entry already there an earlier record can '
+          'keep its label (update@T, remove@T is reported as update: the removed key is resurrected by the resync)', '%s:%s' % (rb.file, rb.line))
+
+
+def _conditional_between(b, a, c):
+    """is there a branch between call block a and call block c (a dominates c) one side of which avoids c before the next a?"""
+    for x in b.reach_from([a], stop=lambda q: q == c, include_start=True):
+        t = b.term(x)
+        if t['k'] == 'switch' and b.dominates(a, x) and b.dominates(x, c):
+            succ = [tb for _, tb in t['targets']] + [t['else']]
+            if not all(c in b.reach_from([s_], stop=lambda q: q == a, include_start=True) for s_ in succ):
+                # exits of the scan (end of file) do not count: only branches that come back to the next record without inserting
+                if any(a in b.reach_from([s_], stop=lambda q: q == c, include_start=True) and c not in b.reach_from([s_], stop=lambda q: q == a, include_start=True) for s_ in succ):
+                    return True
+    return False
 
 
 def since_rule(ck, m):
